@@ -455,7 +455,7 @@ def _prog_signature(case, vals, clauses, at):
         if e["k"] == "set":
             last = (e["c"], v[0])
     call = ev[at - 1]["k"]
-    return (",".join(clauses), case["f"], json.dumps(last), call)
+    return (",".join(clauses), case["f"], last[0] if last else "-", call), last
 
 
 def check_programs(out, tier, seed, fields=None, maxlen=None):
@@ -492,13 +492,15 @@ def check_programs(out, tier, seed, fields=None, maxlen=None):
                 nontrivial.add((c["lvl"], c["f"], tuple(e["k"] + e["c"] for e in c["ev"])))
         for cid, (clauses, at) in rejects.items():
             c, vals = byid[cid]
-            key = _prog_signature(c, vals, clauses, at)
-            g = groups.setdefault(key, dict(n=0, levels=set(), ex=None))
+            key, last = _prog_signature(c, vals, clauses, at)
+            g = groups.setdefault(key, dict(n=0, levels=set(), ex=None, values=set(), last=None))
             g["n"] += 1
             g["levels"].add(c["lvl"])
+            g["values"].add(json.dumps(last[1]) if last else "-")
             job = jobs[cid - jobs[0][0]]
-            if g["ex"] is None or len(job[3]) < len(g["ex"][0][3]):
-                g["ex"] = (job, c, vals, clauses, at)
+            rank = (len(job[3]), json.dumps(last[1]) if last else "", c["lvl"], job[3])
+            if g["ex"] is None or rank < g["rank"]:
+                g["ex"], g["rank"], g["last"] = (job, c, vals, clauses, at), rank, last
         if len(out.samples) < 3 and res:
             c, vals = res[len(res) // 2]
             out.samples.append({"program": [e["k"] + ("." + e["c"] if e["k"] == "set" else "") for e in c["ev"]],
@@ -509,7 +511,7 @@ def check_programs(out, tier, seed, fields=None, maxlen=None):
     # try to show each group by its two-call core: the assignment, then the rejected call
     mini = []
     for key, g in sorted(groups.items()):
-        last = json.loads(key[2])
+        last = g["last"]
         if last is not None and key[3] != "set":
             mini.append((len(mini), min(g["levels"]), key[1], ("set." + last[0], key[3]), 0, False, [last[1]]))
             g["mini"] = len(mini) - 1
@@ -526,7 +528,7 @@ def check_programs(out, tier, seed, fields=None, maxlen=None):
     for key, g in sorted(groups.items()):
         job, c, vals, clauses, at = g["ex"]
         fd = field_by_key(c["f"])
-        last = json.loads(key[2])
+        last = g["last"]
         calls = []
         for e, v in zip(c["ev"], vals):
             calls.append("%s%s -> %s%s" % (e["k"], ("(%s %s)" % (e["c"], json.dumps(v[0]))) if e["k"] == "set" else "",
@@ -535,11 +537,13 @@ def check_programs(out, tier, seed, fields=None, maxlen=None):
             family=FAM, kind="prog", clauses=list(clauses),
             input="line=%r field=%s set=%s then=%s" % (fd["line"], fd["name"], json.dumps(last), key[3]),
             api="Line.set (or attribute assignment)/get/field_to_s/str/validate", levels=sorted(g["levels"]), occurrences=g["n"],
+            values_of_this_class=sorted(g["values"]),
             program=dict(lvl=job[1], key=job[2], codes=list(job[3]), offset=job[4], lax=job[5],
                          force=list(job[6]) if len(job) > 6 else []),
             rejected_call=at, calls=calls,
-            what="%s: %s.%s of %r: %s at vlevel %s; %d programs" % (
-                ",".join(clauses), fd["dt"], fd["name"], fd["line"], "; ".join(calls), sorted(g["levels"]), g["n"])))
+            what="%s: %s.%s of %r: %s at vlevel %s; %d programs, %d values of class %s" % (
+                ",".join(clauses), fd["dt"], fd["name"], fd["line"], "; ".join(calls), sorted(g["levels"]), g["n"],
+                len(g["values"]), key[2])))
     return ncases
 
 
@@ -972,9 +976,9 @@ def check_c19(out, tier, seed):
     seen = set()
     for cid, (clauses, _) in sorted(rejects.items()):
         c, info = res[cid]
-        if (tuple(clauses), info["text"], c["conn"]) in seen:
+        if (tuple(clauses), info["rt"], c["conn"]) in seen:
             continue
-        seen.add((tuple(clauses), info["text"], c["conn"]))
+        seen.add((tuple(clauses), info["rt"], c["conn"]))
         out.violations.append(dict(
             family=FAM, kind="clone", clauses=list(clauses), input=info["text"],
             api="Line.clone (%s)" % ("connected" if c["conn"] else "unconnected"), subject=subs[cid],
@@ -999,19 +1003,22 @@ def check_c19(out, tier, seed):
         c, info = eres[cid]
         _, sub, target, ed = jobs[cid]
         text = sub["text"] if sub["mode"] == "line" else _subject_text(sub)
-        key = (",".join(clauses), text, sub["mode"], target, ed["path"][0], ed["kind"])
+        # one violation per (clauses, record type, connected or not, edited copy, field): the
+        # catalogue lines of one record type differ only in their values
+        key = (",".join(clauses), text.split("\t")[0], sub["mode"], target, ed["path"][0], ed["kind"])
         g = groups.setdefault(key, dict(n=0, ex=None))
         g["n"] += 1
         if g["ex"] is None:
             g["ex"] = (cid, c, info, sub, target, ed)
     for key, g in sorted(groups.items()):
         cid, c, info, sub, target, ed = g["ex"]
+        text = sub["text"] if sub["mode"] == "line" else _subject_text(sub)
         out.violations.append(dict(
-            family=FAM, kind="edit", clauses=key[0].split(","), input=key[1],
+            family=FAM, kind="edit", clauses=key[0].split(","), input=text,
             api="clone + in-place edit (%s, %s)" % ("connected" if c["conn"] else "unconnected", target),
             subject=sub, target=target, edit=ed, observed=c, exc=info["exc"], occurrences=g["n"],
-            what="%s: %r (%s) edit %s of the %s: other copy %r -> %r; gfa changed: %s (%d edits of this field)" % (
-                key[0], key[1], sub["mode"], json.dumps(ed), target, c["ob"], c["oa"], c["gb"] != c["ga"], g["n"])))
+            what="%s: %r (%s) edit %s of the %s: other copy %r -> %r; gfa changed: %s (%d edits of this field of this record type)" % (
+                key[0], text, sub["mode"], json.dumps(ed), target, c["ob"], c["oa"], c["gb"] != c["ga"], g["n"])))
     out.add_cov(states=s1[1] + n1 + n2, transitions=s1[0] + n1 + n2, spec_states_statements=s1[1],
                 traces_validated_against_impl=n1 + n2, clone_subjects=len(subs), edit_cases=len(jobs),
                 edits_that_changed_their_target=effective, record_kinds=len(rts))
